@@ -204,11 +204,13 @@ EXPORT errno_t _wcsrtombs_s_chk(size_t *restrict retvalp, char *restrict dest,
     l = *retvalp = wcsrtombs(dest, srcp, (dest && len > dmax) ? dmax : len, ps);
 
     if (likely(l < dmax)) {
-#ifdef SAFECLIB_STR_NULL_SLACK
         if (dest) {
+#ifdef SAFECLIB_STR_NULL_SLACK
             memset(&dest[l], 0, dmax - l);
-        }
+#else
+            dest[l] = '\0';
 #endif
+        }
         rc = EOK;
     } else {
         /* errno is usually EILSEQ */
